@@ -110,7 +110,10 @@ def rand_param_rec(rng, gid, name=None):
 def make_layout(rng):
     return dict(zeros=rng.choice([0, 0, 1, 3, 512]), paddr=rng.choice([2, 2, 3, 5]),
                 prologue_zeroed=rng.random() < 0.3, end_by_zero_offset=rng.random() < 0.3,
-                strpad=rng.choice([b' ', b' ', b'\x00']), extra_pad_blocks=rng.choice([0, 0, 1]))
+                strpad=rng.choice([b' ', b' ', b'\x00']), extra_pad_blocks=rng.choice([0, 0, 1]),
+                # processor-type byte of the section: 84 = Intel (the only encoding generated); 85 / 86 = the same Intel numbers under a
+                # DEC / MIPS tag, which the library ignores when it loads (what it SAVES must be tagged 84 again: C03)
+                proc=rng.choice([84, 84, 84, 84, 85, 86]))
 
 # ---------------------------------------------------------------- what the loader must expose
 def expected_dump(layout, c):
